@@ -379,7 +379,9 @@ func (drap *draPlugin) deallocateResourceClaim(task *pod_info.PodInfo, podClaim 
 
 	if task.ResourceClaimInfo != nil {
 		if claimInfoInTask := task.ResourceClaimInfo[podClaim.Name]; claimInfoInTask != nil {
-			claimInfoInTask.Allocation = claim.Status.Allocation
+			// The task no longer holds the claim. (Not claim.Status.Allocation: for a shared claim that other consumers
+			// still hold that would be their allocation, remembered by a task that may come back when it is long gone.)
+			claimInfoInTask.Allocation = nil
 		}
 	}
 
